@@ -24,7 +24,7 @@ Remove == \E i \in 0..(live - 1), fo \in BOOLEAN, f \in FaultAt :
              /\ live' = (IF f = 0 /\ fo THEN live - 1 ELSE live) /\ hist' = Append(hist, Op("remove", "", 0, "", i, fo, "", f))
 Dissociate == \E i \in 0..(live - 1), f \in FaultAt :
              /\ live' = (IF f = 0 THEN live - 1 ELSE live) /\ hist' = Append(hist, Op("dissociate", "", 0, "", i, FALSE, "", f))
-Realloc == \E i \in 0..(live - 1), d \in {"cpu+", "cpu-", "mem+", "mem-", "keep", "unbind", "bind"}, f \in FaultAt :
+Realloc == \E i \in 0..(live - 1), d \in {"cpu+", "cpu-", "mem+", "mem++", "mem-", "keep", "unbind", "bind"}, f \in FaultAt :
              /\ UNCHANGED live /\ hist' = Append(hist, Op("realloc", "", 0, "", i, FALSE, d, f))
 Replace == \E i \in 0..(live - 1), f \in FaultAt :
              /\ UNCHANGED live /\ hist' = Append(hist, Op("replace", "", 0, "", i, FALSE, "", f))
